@@ -434,6 +434,9 @@ func loadContracts(repo string, mirror string) (*ContractSet, error) {
 	for _, pkg := range []string{"sdf", "render", "obj"} {
 		path := filepath.Join(repo, pkg, "verif_contracts.go")
 		data, err := os.ReadFile(path)
+		if os.Getenv("VERIF_CONTRACTS") == "mirror" {
+			err = fmt.Errorf("mirror forced")
+		}
 		if err != nil {
 			path = filepath.Join(mirror, pkg+"_verif_contracts.go")
 			data, err = os.ReadFile(path)
@@ -911,6 +914,8 @@ func (x *Exec) typeOfValue(st *State, v Value) types.Type {
 		return types.NewPointer(ty)
 	case *Iface:
 		return t.dyn
+	case *SliceV:
+		return t.named
 	}
 	return nil
 }
